@@ -178,7 +178,7 @@ class Ctx:
         if name in self._probes:
             return self._probes[name]
         src = os.path.join(VERIF, "probes", name + ".c")
-        out = self.path("bin", name)
+        out = self.path("probes", name)      # separate dir: a driver and a probe may share a name
         self.sh(["gcc", "-static", "-O1", "-Wall", "-o", out, src] + list(flags), check=True)
         self._probes[name] = out
         return out
